@@ -4,6 +4,7 @@ import (
 	"bytes"
 	"encoding"
 	"fmt"
+	"reflect"
 	"unicode"
 	"unicode/utf16"
 	"unicode/utf8"
@@ -34,6 +35,22 @@ func (d *unmarshalTextDecoder) annotateError(cursor int64, err error) {
 		e.Field = d.fieldName
 	case *errors.SyntaxError:
 		e.Offset = cursor
+	}
+}
+
+// setNull stores JSON null: a pointer or map becomes nil, a slice the nil slice, an interface
+// the nil interface; a value of any other kind is left as it is (encoding/json does the same).
+// The destination is only as large as its type: a pointer-sized store into, say, an int8 with
+// UnmarshalText would overwrite the bytes behind it.
+func (d *unmarshalTextDecoder) setNull(p unsafe.Pointer) {
+	// d.typ is the pointer type that implements encoding.TextUnmarshaler; p points to its element
+	switch d.typ.Elem().Kind() {
+	case reflect.Ptr, reflect.Map:
+		*(*unsafe.Pointer)(p) = nil
+	case reflect.Slice:
+		*(*sliceHeader)(p) = sliceHeader{}
+	case reflect.Interface:
+		*(*[2]unsafe.Pointer)(p) = [2]unsafe.Pointer{}
 	}
 }
 
@@ -70,7 +87,7 @@ func (d *unmarshalTextDecoder) DecodeStream(s *Stream, depth int64, p unsafe.Poi
 			}
 		case 'n':
 			if bytes.Equal(src, nullbytes) {
-				*(*unsafe.Pointer)(p) = nil
+				d.setNull(p)
 				return nil
 			}
 		}
@@ -123,7 +140,7 @@ func (d *unmarshalTextDecoder) Decode(ctx *RuntimeContext, cursor, depth int64, 
 			}
 		case 'n':
 			if bytes.Equal(src, nullbytes) {
-				*(*unsafe.Pointer)(p) = nil
+				d.setNull(p)
 				return end, nil
 			}
 		}
